@@ -5,6 +5,7 @@ import Driver.C02
 import Driver.C03
 import Driver.C09
 import Driver.C10
+import Driver.C11
 open Lean
 
 def dispatch (p op : String) (c i : Json) : Except String (Json × String) :=
@@ -15,6 +16,7 @@ def dispatch (p op : String) (c i : Json) : Except String (Json × String) :=
   | "C03" => D03.handle op c i
   | "C09" => D09.handle op c i
   | "C10" => D10.handle op c i
+  | "C11" => D11.handle op c i
   | _ => throw s!"unknown property {p}"
 
 def handleLine (line : String) : String :=
